@@ -11,6 +11,14 @@ BASELINE = ("cd /repo && /venv/bin/python -m pytest -ra -q -p no:cacheprovider -
 
 # pid -> (category, text, design_ref, level_note, technique)
 CLAIMED = {
+ "C01": ("model_checking",
+         "spec/CIPWire.tla is an encoder written from the CIP layout tables as TLA+ operators; TLC evaluates it over a bounded domain of "
+         "every sub-grammar (EPATH segment kinds and widths, status, typed data of 13 types, Logix/attribute requests and all "
+         "replies the tag model allows, bundles, Unconnected Send, frames of each command) and checks the layout laws (even EPATH, "
+         "size = words, unique decoding, bundle offset law); every vector is replayed into cpppo: produce(fields) = spec octets, "
+         "parse(octets) consumes all and recovers every field, produce(parse(octets)) = octets.",
+         "5/C01", "Forward Open/Close, List* reply items, legacy command and STRUCT typed data not yet in the vector domain; floats as bit patterns",
+         "TLA+ reference encoder (CIPWire) evaluated by TLC over boundary domains; vectors replayed into cpppo producers and parsers"),
  "C02": ("model_checking",
          "spec/Server.tla models one connection (Recv/Poll/Eof/Proc/Send/Close); TLC explores every delivery schedule of 1..2-frame "
          "streams (ProcOnlyComplete, OneReplyEach, PartialNoEffect, ClosedStays); TLC-emitted streams (spec-encoded frames) are "
